@@ -49,6 +49,46 @@ theorem foldl_last_cover {σ O : Type} (f : σ → O → σ) (cov : O → Bool) 
         rw [List.getLast_cons hxs]
       · simp [hx]
 
+/-- the same with every hypothesis restricted to the members of the list -/
+theorem foldl_noncover_mem {σ O : Type} (f : σ → O → σ) (cov : O → Bool) (good : σ → Prop) :
+    ∀ (L : List O) (s : σ), (∀ o ∈ L, ∀ s, cov o = false → good s → f s o = s) →
+      (∀ o ∈ L, cov o = false) → good s → L.foldl f s = s
+  | [], _, _, _, _ => rfl
+  | x :: xs, s, hnot, h, hs => by
+    have hx := hnot x (by simp) s (h x (by simp)) hs
+    rw [List.foldl_cons, hx]
+    exact foldl_noncover_mem f cov good xs s (fun o ho => hnot o (by simp [ho])) (fun o ho => h o (by simp [ho])) hs
+
+theorem foldl_last_cover_mem {σ O : Type} (f : σ → O → σ) (cov : O → Bool) (tgt : O → σ) (good : σ → Prop) :
+    ∀ (L : List O) (s : σ)
+      (_ : ∀ o ∈ L, ∀ s, cov o = true → f s o = tgt o)
+      (_ : ∀ o ∈ L, ∀ s, cov o = false → good s → f s o = s)
+      (_ : ∀ o ∈ L, cov o = true → good (tgt o))
+      (h : L.filter cov ≠ []), L.foldl f s = tgt ((L.filter cov).getLast h)
+  | [], _, _, _, _, h => absurd rfl h
+  | x :: xs, s, hcov, hnot, hgood, h => by
+    rw [List.foldl_cons]
+    by_cases hxs : xs.filter cov = []
+    · have hx : cov x = true := by
+        by_contra hc
+        apply h
+        simp [hc, hxs]
+      have hall : ∀ o ∈ xs, cov o = false := by
+        intro o ho
+        have := List.filter_eq_nil_iff.mp hxs o ho
+        simpa using this
+      rw [hcov x (by simp) s hx,
+        foldl_noncover_mem f cov good xs _ (fun o ho => hnot o (by simp [ho])) hall (hgood x (by simp) hx)]
+      congr 1
+      simp [hx, hxs]
+    · rw [foldl_last_cover_mem f cov tgt good xs (f s x) (fun o ho => hcov o (by simp [ho]))
+        (fun o ho => hnot o (by simp [ho])) (fun o ho => hgood o (by simp [ho])) hxs]
+      congr 1
+      by_cases hx : cov x = true
+      · simp only [List.filter_cons, hx, if_true]
+        rw [List.getLast_cons hxs]
+      · simp [hx]
+
 /-! ### the last element of a sorted list -/
 
 theorem pairwise_rel_getLast {β : Type} (R : β → β → Prop) :
